@@ -387,8 +387,9 @@ class VizierServicer(vizier_service_pb2_grpc.VizierServiceServicer):
         suggest_decision_proto = temp_pythia_service.Suggest(
             suggest_request_proto
         )
-      # Pythia can raise any exception, captured inside grpc.RpcError.
-      except grpc.RpcError as e:
+      # Pythia can raise any exception: a remote Pythia wraps it inside
+      # grpc.RpcError, the in-process PythiaServicer raises it as is.
+      except Exception as e:  # pylint: disable=broad-except
         output_op.error.CopyFrom(
             status_pb2.Status(code=code_pb2.Code.INTERNAL, message=str(e))
         )
@@ -440,7 +441,8 @@ class VizierServicer(vizier_service_pb2_grpc.VizierServiceServicer):
       ]
       new_trials = svz.TrialConverter.to_protos(new_py_trials)
 
-      while request.suggestion_count > len(output_trials):
+      # If Pythia under-delivered, hand out what was delivered.
+      while new_trials and request.suggestion_count > len(output_trials):
         new_trial = new_trials.pop()
         trial_id = self.datastore.max_trial_id(request.parent) + 1
         new_trial.id = str(trial_id)
